@@ -546,6 +546,96 @@ def _privatize(txt: str) -> str:
     return _PRIV_RE.sub(rep, txt)
 
 
+
+_FOR_HDR = re.compile(r"(?<![A-Za-z0-9_])for\s+(?P<pat>[A-Za-z_][A-Za-z0-9_]*)\s+in\s+(?P<name>[A-Za-z_][A-Za-z0-9_]*)\s*:\s*(?P<expr>[^{;\n]+?)\.iter\(\)[ \t]*(?=\n|\{)")
+_NESTED_LOOP = re.compile(r"(?<![A-Za-z0-9_'])(for|while|loop)(?![A-Za-z0-9_])")
+
+
+def _own_continue(mbody: str) -> bool:
+    """does the (masked) loop body contain a `continue` that belongs to THIS loop (not to a nested one)?"""
+    excl = []
+    for nm in _NESTED_LOOP.finditer(mbody):
+        ob = mbody.find("{", nm.end())
+        if ob < 0:
+            continue
+        try:
+            excl.append((ob, match_brace(mbody, ob)))
+        except Exception:
+            pass
+    for cm in re.finditer(r"(?<![A-Za-z0-9_])continue(?![A-Za-z0-9_])", mbody):
+        if not any(a < cm.start() < b for a, b in excl):
+            return True
+    return False
+
+
+def for_continue_fallback(text: str, log: list) -> str:
+    """R-forcontinue.  Verus has no `continue` inside `for` loops.  A loop `for X in IT: E.iter() inv { B }` whose body
+    contains its own `continue` is rewritten (same lines) to the index loop
+        let mut IT_i: usize = 0; while IT_i < E.len() invariant IT_i <= E.len(), inv' decreases E.len() - IT_i
+        { let X = &E[IT_i]; IT_i = IT_i + 1; B' }
+    where the ghost position `IT.index@` becomes `IT_i` in the loop's invariant and after the loop, `IT_i - 1` in the body.
+    E is evaluated again per iteration (it is a place expression or a pure call in every unit)."""
+    pos = 0
+    while True:
+        m = mask(text)
+        hm = _FOR_HDR.search(m, pos)
+        if not hm:
+            return text
+        pos = hm.end()
+        name, pat, expr = hm.group("name"), hm.group("pat"), text[hm.start("expr"):hm.end("expr")].strip()
+        # body-open brace: the first `{` after the header that is not inside the invariant clauses' own braces/parens
+        k = hm.end()
+        depth = 0
+        ob = -1
+        while k < len(m):
+            c = m[k]
+            if c in "([":
+                depth += 1
+            elif c in ")]":
+                depth -= 1
+            elif c == "{" and depth == 0:
+                # a `{` that starts an invariant sub-expression (`==> {`, `&&& {` ...) is preceded by an operator or `(`
+                prev = m[:k].rstrip()
+                if prev.endswith(("==>", "&&&", "|||", "=", "(", "&&", "||", "{")):
+                    k = match_brace(m, k)
+                else:
+                    ob = k
+                    break
+            k += 1
+        if ob < 0:
+            continue
+        cb = match_brace(m, ob)
+        if not _own_continue(m[ob + 1:cb]):
+            continue
+        iv = name + "_i"
+        idx_pat = re.compile(r"(?<![A-Za-z0-9_])" + re.escape(name) + r"\.index@")
+        header = text[hm.start():hm.end()]
+        inv = text[hm.end():ob]
+        body = text[ob + 1:cb]
+        rest = text[cb:]
+        if "(" in expr:
+            # a call: binding it to a local would lose what its contract says about the value across iterations
+            # (spurious failures); left to Verus, which reports the unsupported `continue` (UNDECIDED)
+            continue
+        new_header = "let mut %s: usize = 0; while %s < %s.len()" % (iv, iv, expr)
+        inv2 = idx_pat.sub("(%s as int)" % iv, inv)
+        bound = " %s <= %s.len()," % (iv, expr)
+        if re.search(r"(?<![A-Za-z0-9_])invariant(?![A-Za-z0-9_])", mask(inv2)):
+            inv2 = re.sub(r"(?<![A-Za-z0-9_])invariant(?![A-Za-z0-9_])", "invariant" + bound, inv2, count=1)
+        else:
+            new_header += " invariant" + bound
+        body2 = idx_pat.sub("((%s - 1) as int)" % iv, body)
+        # after the loop, up to a re-declaration of the same ghost iterator name
+        nxt = re.search(r"in\s+" + re.escape(name) + r"\s*:", mask(rest))
+        lim = nxt.start() if nxt else len(rest)
+        rest2 = idx_pat.sub("(%s as int)" % iv, rest[:lim]) + rest[lim:]
+        text = (text[:hm.start()] + new_header + inv2 + " decreases (%s.len() - %s) { let %s = &%s[%s]; %s = %s + 1;" % (expr, iv, pat, expr, iv, iv, iv)
+                + body2 + rest2)
+        log.append({"unit": "(any)", "pattern": "R-forcontinue", "replacement": "index while-loop for `for %s in %s: %s.iter()`" % (pat, name, expr),
+                    "matches": 1, "why": "Verus rejects `continue` in for loops; ghost position %s.index@ -> %s" % (name, iv)})
+        pos = hm.start() + len(new_header)
+
+
 def assemble(prelude_files: List[str], units: List[Unit], out_path: str, extra_tail: str = ""):
     """Write the Verus file; return (linemap, rewrite_log, n_loops_with_inv).
     linemap[i] (1-based output line i) = dict(kind=..., file=..., line=..., label=...)."""
@@ -587,7 +677,14 @@ def assemble(prelude_files: List[str], units: List[Unit], out_path: str, extra_t
                 linemap.append({"kind": "spec", "label": p.label, "text": ln.strip()})
             else:
                 linemap.append({"kind": "glue", "text": ln.strip()})
+    final = "".join(out)
+    try:
+        final2 = for_continue_fallback(final, rewrite_log)
+        if final2.count("\n") == final.count("\n"):
+            final = final2
+    except Exception as e:  # the fallback is best effort: without it Verus reports the unsupported construct (UNDECIDED)
+        rewrite_log.append({"unit": "(any)", "pattern": "R-forcontinue", "replacement": "(failed: %s)" % e, "matches": 0, "why": ""})
     os.makedirs(os.path.dirname(out_path), exist_ok=True)
     with open(out_path, "w", encoding="utf-8") as f:
-        f.write("".join(out))
+        f.write(final)
     return linemap, rewrite_log
